@@ -163,12 +163,17 @@ func (v Ver) String() string {
 // NativePut writes a native value (header + value) as an application does:
 // current transaction id, given timestamp. del writes a deletion marker.
 func NativePut(txn *lmdb.Txn, dbi string, key []byte, ts uint64, del bool, val []byte) error {
+	return NativePutFlags(txn, dbi, 0, key, ts, del, val)
+}
+
+// NativePutFlags is NativePut for a DBI created with the given flags (MDB_INTEGERKEY...).
+func NativePutFlags(txn *lmdb.Txn, dbi string, createFlags uint, key []byte, ts uint64, del bool, val []byte) error {
 	fl := uint8(0)
 	if del {
 		fl = 1
 		val = nil
 	}
-	return lmdbx.Put(txn, dbi, 0, key, hdr.Make(ts, uint64(txn.ID()), fl, nil, val))
+	return lmdbx.Put(txn, dbi, createFlags, key, hdr.Make(ts, uint64(txn.ID()), fl, nil, val))
 }
 
 // ---------------------------------------------------------------- observation
